@@ -203,6 +203,11 @@ def call_ext(I: Any, name: str, args: List[Term], kwargs: Dict[str, Term], st: A
         sq_ = T.to_seq(args[0]) if _textlike(args[0]) else None
         if isinstance(n_, int) and n_ > 0 and sq_ is not None:
             return ("batched", sq_, n_)      # tuples of n consecutive items (bytes as ints, text as characters)
+    if name == "itertools.pairwise" and len(args) == 1 and not kwargs:
+        its_ = I.iter_items(args[0], st, ctx, node)
+        if its_ is not None:
+            from .interp import HeapObj
+            return st.alloc(HeapObj("list", None, {}, [("tuple", (x_, y_)) for x_, y_ in zip(its_, its_[1:])]))
     if name in ("builtins.any", "builtins.all") and len(args) == 1 and not kwargs:
         from .interp import conj as _conj, disj as _disj, ite as _ite
         a0 = args[0]
@@ -1746,6 +1751,16 @@ def call_method(I: Any, recv: Term, name: str, args: List[Term], kwargs: Dict[st
             out_ = T.concat(T.concat(format_value(I, kws["hour"], "02d", st, ctx, node), c(":")), format_value(I, kws.get("minute", c(0)), "02d", st, ctx, node))
             if not is_top(out_):
                 return merge_strftime(out_)
+
+    if recv[:2] == ("app", "re.compile") and len(recv) == 3 and name == "findall" and len(args) == 1 and not kwargs and is_c(recv[2]) and isinstance(recv[2][1], (str, bytes)):
+        # compiled '.{1,N}' (greedy, no flags) over text made of hex digits only (no newline for '.' to refuse): the
+        # consecutive chunks of N characters, the last one possibly shorter; '' -> []
+        pat_ = recv[2][1].decode("latin1") if isinstance(recv[2][1], bytes) else recv[2][1]
+        m_ = re.fullmatch(r"\.\{1,(\d+)\}", pat_)
+        sq_ = T.to_seq(args[0]) if _textlike(args[0]) else None
+        if m_ and int(m_.group(1)) > 0 and sq_ is not None and sq_[2] and all(isinstance(a_, tuple) and a_[:1] == ("hx",) for a_ in sq_[2]) and (sq_[1] == "b") == isinstance(recv[2][1], bytes):
+            return ("chunks", sq_, int(m_.group(1)))
+        return top(f"regular expression {pat_!r}.findall is not modelled")
 
     if recv[0] == "ite" and len(recv) == 4 and name in ("format", "decode", "encode", "hex", "upper", "lower", "strip", "rstrip", "lstrip", "ljust", "rjust", "zfill", "join", "split", "get"):
         # a pure method of a two-way choice: the choice of the results (branches the path already decided are dropped)
